@@ -46,6 +46,7 @@ type gfFile struct {
 	pkg    string // package clause ("p" or "p_test")
 	flow   bool   // contains a cff.Flow
 	tagged bool
+	genhdr bool // starts with a "Code generated … DO NOT EDIT." header (output of another generator)
 }
 
 type gfCase struct {
@@ -109,6 +110,8 @@ func gfCases() []*gfCase {
 			{name: "plain_gen.go", pkg: "p", flow: false, tagged: false},
 			{name: "untagged_gen.go", pkg: "p", flow: false, tagged: false},
 			{name: "untagged_gen_test.go", pkg: "p", flow: false, tagged: false},
+			// output of another generator (stringer-style header), sorting before every cff file
+			{name: "aaa_string.go", pkg: "p", flow: false, tagged: false, genhdr: true},
 		}
 	}
 	add := func(id string, c gfCase) {
@@ -204,6 +207,9 @@ func runGF(cfg *config, o *out) error {
 		}
 		for _, f := range c.files {
 			files["p/"+f.name] = gfSource(f.pkg, fnName(f.name), f.tagged, f.flow)
+			if f.genhdr {
+				files["p/"+f.name] = "// Code generated by \"stringer -type=Color\"; DO NOT EDIT.\n\n" + files["p/"+f.name]
+			}
 		}
 		if c.err = writeFiles(root, files); c.err != nil {
 			return
